@@ -2136,3 +2136,72 @@ Proof.
   pose proof (run_wr p s Hr Ho) as Hr'. rewrite Er in Hin, Hr'. cbn [fst] in *.
   unfold wfs, wrs in *. rewrite Forall_forall in W', Hr'. apply real_type; auto.
 Qed.
+
+(* ------------------------------------------------------------------ no hidden state: what an operation returns is a
+   function of the matrices the carriers currently represent, whatever sequence of operations produced them.
+   (Consequences of step_refines / program_refines; stated separately because a cache that survives an in-place
+   operation is exactly a violation of these statements.) *)
+
+(* the pure reads leave the whole store as it is *)
+Lemma read_keeps_store o s : writes o = None -> fst (step o s) = s.
+Proof.
+  intros Hw.
+  destruct o as [dst u v r cn|tgt u v fac|k dst src|tgt src|tgt src|k dst a b|dst a x f|dst a x f|a|a k|dst a i j|tgt i j v|a mat rows cols|a mats];
+    cbn [writes] in Hw; try discriminate; cbn [step]; destruct (get_slot s a); reflexivity.
+Qed.
+
+(* two results that have the same dense image: same value and shape (carriers: same represented matrix), same error *)
+Definition same_value (a b : res out) : Prop :=
+  match a, b with
+  | Ok (ODyad c1), Ok (ODyad c2) => ulen c1 = ulen c2 /\ vlen c1 = vlen c2 /\ todense c1 = todense c2
+  | Ok (OScal x _), Ok (OScal y _) => x = y
+  | Ok (OVec x _), Ok (OVec y _) => x = y
+  | Ok (OMat r c x _), Ok (OMat r' c' y _) => r = r' /\ c = c' /\ x = y
+  | Ok (OBatch bs x _), Ok (OBatch bs' y _) => bs = bs' /\ x = y
+  | Ok ONone, Ok ONone => True
+  | Er e, Er e' => e = e'
+  | _, _ => False
+  end.
+
+Lemma Rres_same_value a b r : Rres a r -> Rres b r -> same_value a b.
+Proof.
+  destruct a as [x|e], b as [y|e'], r as [z|e'']; cbn [Rres]; try contradiction.
+  - destruct z as [d|o].
+    + destruct x as [c1| | | | |], y as [c2| | | | |]; cbn [Rout out_le]; try contradiction.
+      intros [_ [U1 [V1 [M1 _]]]] [_ [U2 [V2 [M2 _]]]]. cbn [same_value]. repeat split; congruence.
+    + destruct x as [c1|x1 f1|x1 f1|r1 n1 x1 f1|b1 x1 f1|], o as [c3|x3 f3|x3 f3|r3 n3 x3 f3|b3 x3 f3|];
+        cbn [Rout out_le]; try contradiction;
+        destruct y as [c2|x2 f2|x2 f2|r2 n2 x2 f2|b2 x2 f2|]; cbn [Rout out_le]; try contradiction; cbn [same_value].
+      * intros [E1 _] [E2 _]. congruence.
+      * intros [E1 _] [E2 _]. congruence.
+      * intros [A1 [B1 [E1 _]]] [A2 [B2 [E2 _]]]. repeat split; congruence.
+      * intros [A1 [E1 _]] [A2 [E2 _]]. repeat split; congruence.
+      * intros _ _. exact I.
+  - intros E1 E2. cbn [same_value]. congruence.
+Qed.
+
+(* one operation applied to two stores with the same dense image *)
+Theorem step_no_hidden_state o s1 s2 ds ds' r' : wfs s1 -> wfs s2 -> Rs s1 ds -> Rs s2 ds -> dstep o ds = Some (ds', r') ->
+  same_value (snd (step o s1)) (snd (step o s2)) /\ Rs (fst (step o s1)) ds' /\ Rs (fst (step o s2)) ds'.
+Proof.
+  intros W1 W2 R1 R2 H.
+  destruct (step_refines o s1 ds ds' r' W1 R1 H) as [s1' [r1 [E1 [_ [Rs1 Rr1]]]]].
+  destruct (step_refines o s2 ds ds' r' W2 R2 H) as [s2' [r2 [E2 [_ [Rs2 Rr2]]]]].
+  rewrite E1, E2. cbn [fst snd]. split; [exact (Rres_same_value _ _ _ Rr1 Rr2) | split; assumption].
+Qed.
+
+(* the same after two arbitrary histories (programs from the empty store) that lead to the same matrices: every
+   further operation (a read in particular) returns the same value after both *)
+Theorem history_independence p1 p2 ds rs1 rs2 o ds' r' :
+  drun p1 [] = Some (ds, rs1) -> drun p2 [] = Some (ds, rs2) -> dstep o ds = Some (ds', r') ->
+  same_value (snd (step o (fst (run p1 [])))) (snd (step o (fst (run p2 [])))) /\
+  Rres (snd (step o (fst (run p1 [])))) r'.
+Proof.
+  intros H1 H2 H.
+  destruct (program_refines p1 [] [] ds rs1 (Forall_nil _) (Forall2_nil _) H1) as [s1 [o1 [E1 [W1 [R1 _]]]]].
+  destruct (program_refines p2 [] [] ds rs2 (Forall_nil _) (Forall2_nil _) H2) as [s2 [o2 [E2 [W2 [R2 _]]]]].
+  rewrite E1, E2. cbn [fst].
+  destruct (step_refines o s1 ds ds' r' W1 R1 H) as [s1' [r1 [F1 [_ [_ Rr1]]]]].
+  destruct (step_refines o s2 ds ds' r' W2 R2 H) as [s2' [r2 [F2 [_ [_ Rr2]]]]].
+  rewrite F1, F2. cbn [snd]. split; [exact (Rres_same_value _ _ _ Rr1 Rr2) | exact Rr1].
+Qed.
